@@ -51,6 +51,7 @@ CLAIMED = {
              ref="3/C20"),
 }
 NA = {
+ "C19": "the only part within reach is the post-Qhull lattice builder with scipy.spatial.Voronoi stubbed; its vertex / edge interning by coordinate equality and the all-pairs distance matrix fork quadratically in the number of symbolic corners and the exploration of the smallest shared-ridge lattice (4 bounded regions) did not finish one path in 25 min (harness kept as harness/c19.py, unregistered); that Qhull's output is the Voronoi diagram is outside any solver's reach (DESIGN.md section 5)",
  "C08": "purely topological statement over object graphs; no symbolic dimension survives realisation into Vertex/Cell objects (DESIGN.md section 5)",
  "C09": "heap back-reference invariant over parsers, editing histories and GC-driven destructors; outside solver reach (DESIGN.md section 5)",
  "C14": "quantifier over text file layouts; file I/O, regex, float(text), pandas cannot be given symbolic input within reach (DESIGN.md section 5)",
